@@ -637,6 +637,11 @@ impl G2 {
                 if map {
                     self.w("drop");
                 }
+                if rng.chance(1, 4) {
+                    // leave the loop early from inside a foreach (the loop record holds the iterated collection)
+                    self.w(rng.pick(&["dup 2 equal? if drop break then", "dup \"b\" equal? if drop break then", "dup nil? if else drop break then"]));
+                    self.feat("foreach-break");
+                }
                 self.st.push(T::X);
                 for _ in 0..rng.below(2) {
                     self.stmt(rng, depth + 1);
